@@ -17,8 +17,8 @@ RULE = ('strata over chain lists on lattices L<=Lmax with <=mmax chains, alphabe
         '12 chains with duplicates / cancelling repeats / shared sub-words / zero coefficients.  The MPO stage runs '
         'whenever every operator id occurs with a single charge (always for zeroq and random).  '
         'non-trivial = not a single all-identity chain; distinct = distinct (L, chain list)')
-BOUNDS = {'quick': 'exhaustive strata L<=3, <=3 chains (cap 450 per stratum, singles complete); random L<=8, <=12 chains (1500)',
-          'thorough': 'exhaustive strata L<=4, <=4 chains (cap 12000 per stratum, singles complete); random L<=8, <=12 chains (30000)'}
+BOUNDS = {'quick': 'exhaustive strata L<=3, <=3 chains (cap 1500 per stratum, singles complete); random L<=8, <=12 chains (4000)',
+          'thorough': 'exhaustive strata L<=4, <=4 chains (cap 6000 per stratum, singles complete); random L<=8, <=12 chains (40000)'}
 EXHAUSTIVE = {'quick': False, 'thorough': False}
 
 OID_ID = 0
@@ -44,8 +44,8 @@ def cases(tier, seed):
     rng = np.random.default_rng(seed)
     quick = tier == 'quick'
     Lmax, mmax = (3, 3) if quick else (4, 4)
-    cap = 450 if quick else 12000
-    nrandom = 1500 if quick else 30000
+    cap = 1500 if quick else 6000
+    nrandom = 4000 if quick else 40000
 
     def mk(kind, L, chains):
         return dict(kind=kind, L=L, chains=chains, seed=int(rng.integers(1 << 31)))
